@@ -348,6 +348,15 @@ func runReuseCase(c *Case, env *Env) *Result {
 				ikey := dictKey{ws.Idx, field, op.Slot}
 				odi := dictIts[ikey]
 				if odi == nil || op.Restart {
+					if odi != nil {
+						// done with the earlier enumeration: close it (the Dictionary it came
+						// from stays in use)
+						if err := odi.it.Close(); err != nil {
+							f = apiFail("C13", "reuse", "DictionaryIterator.Close", nil, err)
+							return
+						}
+						res.probe("dictionary-iterator-closed-dictionary-still-in-use")
+					}
 					all := exp.Dicts[field]
 					odi = &openDictIter{all: all}
 					if op.Term > 0 && len(all) > 0 {
